@@ -120,6 +120,7 @@ package quic
 //@   requires m.omInv() && -1 <= id && id <= 4611686018427387903
 //@   ensures [monotone] m.maxStream == max(old(m.maxStream), id)
 //@   ensures [epoch] implies(id <= old(m.maxStream), m.blockedSent == old(m.blockedSent))
+//@   ensures [a-raised-limit-re-arms-streams-blocked] implies(id > old(m.maxStream) && m.blockedSent, called("(*outgoingStreamsMap[T]).maybeSendBlockedFrame") == 1)
 //@   ensures [inv] m.omInv()
 //@   modifies m.maxStream, m.blockedSent
 
@@ -191,6 +192,7 @@ package quic
 //@   ensures [queue] len(h.queue) == old(len(h.queue)) - 1 && h.qInv()
 //@   ensures [token-swap] called("field:addStatelessResetToken") == 1 && iff(called("field:removeStatelessResetToken") == 1, old(h.activeStatelessResetToken) != nil)
 //@   ensures [token-set] h.activeStatelessResetToken != nil
+//@   ensures [old-token-unregistered-before-the-new-one-is-registered] implies(called("field:removeStatelessResetToken") == 1, callindex("field:removeStatelessResetToken", 0) < callindex("field:addStatelessResetToken", 0))
 //@   modifies h.highestRetired, h.queue, h.activeSequenceNumber, h.activeConnectionID.*, h.activeStatelessResetToken, h.packetsSinceLastChange, h.packetsPerConnectionID, h.rand.*
 
 //@ func (h *connIDManager) shouldUpdateConnID
@@ -658,12 +660,15 @@ package quic
 //@   modifies nothing
 
 //@ func validateInitialFlight
-//@   props C09
+//@   props C09 C10
 //@   requires 0 <= cryptoLen && cryptoLen <= 1099511627776 && len(budgets) >= 1
 //@   ensures [non-empty] implies(result == nil, len(payloads) >= 1)
+//@   ensures [every-datagram-within-its-budget] implies(result == nil, forall(i, 0, len(payloads), implies(budgets[min(i, len(budgets) - 1)].MaxFrameBytes > 0, len(payloads[i]) <= budgets[min(i, len(budgets) - 1)].MaxFrameBytes)))
+//@   ensures [every-crypto-byte-carried] implies(result == nil, forall(k, 0, cryptoLen, sent[k]))
 //@   modifies nothing
 //@ loop validateInitialFlight #0
-//@   invariant len(sent) == cryptoLen && isfresh(sent)
+//@   invariant len(sent) == cryptoLen && isfresh(sent) && 0 <= rangeidx && rangeidx <= len(payloads)
+//@   invariant forall(i, 0, rangeidx, implies(budgets[min(i, len(budgets) - 1)].MaxFrameBytes > 0, len(payloads[i]) <= budgets[min(i, len(budgets) - 1)].MaxFrameBytes))
 //@   modifies sent[*]
 //@ loop validateInitialFlight #1
 //@   invariant len(sent) == cryptoLen && isfresh(sent)
@@ -672,6 +677,7 @@ package quic
 //@   invariant len(sent) == cryptoLen && isfresh(sent) && j <= cf.Offset + cf.Length
 //@   modifies sent[*]
 //@ loop validateInitialFlight #3
+//@   invariant len(sent) == cryptoLen && 0 <= rangeidx && rangeidx <= cryptoLen && forall(k, 0, rangeidx, sent[k])
 //@   modifies nothing
 
 //@ iface (f quic.QUICFrame) CryptoFrameInfo
@@ -750,7 +756,7 @@ package quic
 //@   modifies raw[:]
 
 //@ func (p *uPacketPacker) appendInitialPacketPayload
-//@   props C10
+//@   props C10 C09
 //@   let ps = p.uSpec.InitialPacketSpec
 //@   let np = len(ps.InitialPackets)
 //@   let psize = ite(np == 0, 0, ps.InitialPackets[min(idx, np - 1)].PacketSize)
@@ -1207,8 +1213,30 @@ package quic
 //@ func startedConnectionEvent
 //@   trusted qlog only
 //@   modifies nothing
+// handleFrames: a packet is ack-eliciting / non-probing as soon as ONE of its frames is (RFC 9000 13.2: every packet
+// containing an ack-eliciting frame must be acknowledged) — the flags accumulate over the frames, whatever frame comes last.
+//@ func (c *Conn) handleAckFrame
+//@   trusted hands the ACK to loss recovery and the crypto setup (both under contract in their packages); examined here only as a callee
+//@   modifies everything
+//@ func (c *Conn) handleFrame
+//@   trusted dispatcher for the less common frame types; examined here only as a callee
+//@   modifies everything
+//@ func toQlogFrame
+//@   trusted qlog only
+//@   modifies nothing
+//@ func (c *Conn) handleHandshakeComplete
+//@   trusted completes the handshake (keys, streams, tokens): examined here only as a callee
+//@   modifies everything
 //@ func (c *Conn) handleFrames
-//@   trusted the frame loop of the connection (dispatches every frame type); examined here only up to this call
+//@   props C07
+//@   requires c.frameParser != nil && c.streamsMap != nil && len(data) <= 1099511627776 && 1 <= encLevel && encLevel <= 4
+//@   unclaimed pre:(*Conn).handleDatagramFrame@22.0 representation invariants of the connection's components are assumed at the dispatch sites (each callee is verified against its own)
+//@   unclaimed pre:(*FrameParser).ParseAckFrame@11.0 same
+//@   unclaimed pre:(*streamsMap).HandleStreamFrame@10.0 same
+//@   modifies everything
+//@ loop (c *Conn) handleFrames #0
+//@   bodyensures [ack-eliciting-accumulates] implies(prev(isAckEliciting), isAckEliciting) && implies(prev(isNonProbing), isNonProbing)
+//@   bodyensures [one-ack-eliciting-frame-suffices] implies(calledinloop("IsFrameTypeAckEliciting") == 1 && lastresultb("IsFrameTypeAckEliciting"), isAckEliciting)
 //@   modifies everything
 //@ iface (c quic.sendConn) LocalAddr
 //@   modifies nothing
@@ -1485,3 +1513,59 @@ package quic
 //@   ensures [empty-packet-is-a-protocol-violation] implies(result4 == nil, len(result3) > 0)
 //@   ensures [nothing-on-error] implies(result4 != nil, result0 == 0 && result1 == 0 && result2 == 0 && len(result3) == 0)
 //@   modifies data[:]
+
+// ---------------- the spec's source connection ID length reaches the wire (C10) ----------------
+// The generator derived from InitialPacketSpec.SrcConnIDLength is installed BEFORE Transport.init caches the generator —
+// always, whatever generator the embedded Transport carried: the spec says what the Initial's source connection ID looks like.
+//@ func (t *UTransport) dial
+//@   props C10
+//@   opt cutbefore (*Transport).init
+//@   requires t.Transport != nil
+//@   ensures [spec-length-generator-installed] implies(t.QUICSpec != nil && t.QUICSpec.InitialPacketSpec.SrcConnIDLength != 0, typeis(t.Transport.ConnectionIDGenerator, *protocol.DefaultConnectionIDGenerator) && dyn(t.Transport.ConnectionIDGenerator, *protocol.DefaultConnectionIDGenerator).ConnLen == t.QUICSpec.InitialPacketSpec.SrcConnIDLength)
+//@   ensures [zero-length-means-empty-ids] implies(t.QUICSpec != nil && t.QUICSpec.InitialPacketSpec.SrcConnIDLength == 0, typeis(t.Transport.ConnectionIDGenerator, *protocol.ExpEmptyConnectionIDGenerator))
+//@   ensures [no-spec-keeps-the-callers-generator] implies(t.QUICSpec == nil, t.Transport.ConnectionIDGenerator == old(t.Transport.ConnectionIDGenerator))
+//@   modifies t.Transport.ConnectionIDGenerator
+
+// ---------------- limits the client enforces on what it receives (C12) ----------------
+// DATAGRAM frames: a frame is refused iff it is longer than wire.MaxDatagramSize (the size behind the advertised
+// max_datagram_frame_size) — never because of this endpoint's own send-side packet size.
+//@ iface (q quic.datagramQueueI) HandleDatagramFrame
+//@   modifies nothing
+//@ func (h *datagramQueue) HandleDatagramFrame
+//@   trusted hands the payload to the receive queue (channel; not modelled)
+//@   modifies nothing
+//@ func (c *Conn) handleDatagramFrame
+//@   props C12
+//@   requires f != nil && c.datagramQueue != nil && len(f.Data) <= 1099511627776
+//@   ensures [refused-iff-longer-than-advertised] iff(result != nil, lastresult("(*DatagramFrame).Length") > wire.MaxDatagramSize) && implies(result != nil, iserr(result, qerr.ProtocolViolation))
+//@   ensures [delivered-iff-accepted] called("(*datagramQueue).HandleDatagramFrame") == ite(result == nil, 1, 0)
+//@   modifies nothing
+// Idle timeout: the configured one, lowered to the peer's only if the peer advertised one (RFC 9000 10.1: an absent or zero
+// max_idle_timeout means the peer sets no limit).
+//@ func (c *Conn) applyTransportParameters
+//@   props C12
+//@   opt cutbefore (*streamsMap).HandleTransportParameters
+//@   requires c.peerParams != nil && c.config != nil
+//@   ensures [idle-timeout-is-min-of-config-and-advertised-peer-value] c.idleTimeout == ite(c.peerParams.MaxIdleTimeout > 0, min(c.config.MaxIdleTimeout, c.peerParams.MaxIdleTimeout), c.config.MaxIdleTimeout)
+//@   ensures [keep-alive-within-half-the-idle-timeout] c.keepAliveInterval <= c.idleTimeout / 2 && c.keepAliveInterval <= c.config.KeepAlivePeriod
+//@   modifies c.idleTimeout, c.keepAliveInterval
+
+// ---------------- per-dial permutation of the transport parameters (C11) ----------------
+// The permutation is drawn by the standard library's Fisher-Yates (math/rand.Shuffle: every permutation equally likely — an
+// assumption on the library), over the whole list, with a swap function that really swaps two entries and touches nothing
+// else. A hand-rolled loop is not accepted as "uniform" by this contract: uniformity is a property of the draw, which no
+// per-call contract can establish.
+//@ extern math/rand.Shuffle
+//@   modifies everything
+//@ func ShuffleQUICTransportParameters
+//@   props C11
+//@   requires qtp != nil
+//@   ensures [library-shuffle] called("Shuffle") == 1
+//@   ensures [over-the-whole-list] callarg("Shuffle", 0, 0) == old(len(qtp.TransportParameters))
+//@   modifies everything
+//@ func ShuffleQUICTransportParameters$1
+//@   props C11
+//@   requires qtp != nil && 0 <= i && i < len(qtp.TransportParameters) && 0 <= j && j < len(qtp.TransportParameters)
+//@   ensures [swaps-exactly-two-entries] qtp.TransportParameters[i] == old(qtp.TransportParameters[j]) && qtp.TransportParameters[j] == old(qtp.TransportParameters[i]) && forall(k, 0, len(qtp.TransportParameters), implies(k != i && k != j, qtp.TransportParameters[k] == old(qtp.TransportParameters[k])))
+//@   ensures [same-list] len(qtp.TransportParameters) == old(len(qtp.TransportParameters)) && samearray(qtp.TransportParameters, old(qtp.TransportParameters))
+//@   modifies qtp.TransportParameters[*]
